@@ -24,7 +24,7 @@ int main(int argc, char** argv) {
   std::string m = argv[1];
   for (int i = 2; i < argc; ++i) { std::string a = argv[i]; size_t e = a.find('='); if (e != std::string::npos) A[a.substr(0, e)] = a.substr(e + 1); }
   FS* o = mk("len", "c"); std::string old = view(o), exp = old; bool content = A.count("content") != 0; // content=1: C11 oracle on
-  size_t index = Z("index"), count = Z("count"), pos = Z("pos"), pos2 = Z("pos2"), count2 = Z("count2"), index_str = Z("index_str"), pos1 = Z("pos1"), count1 = Z("count1"), idx = Z("idx");
+  size_t index = Z("index"), count = Z("count"), pos = Z("pos"), pos2 = Z("pos2"), count2 = Z("count2"), index_str = Z("index_str"), pos1 = Z("pos1"), count1 = Z("count1"), idx = Z("idx"), i1 = Z("i1"), i2 = Z("i2");
   char ch = (char)Z("ch"); std::string sv = H("str");
   // heap copy of exactly the right size so ASan sees over-reads of the source
   char* cstr = (char*)malloc(sv.size() + 1); memcpy(cstr, sv.data(), sv.size()); cstr[sv.size()] = 0;
@@ -84,6 +84,22 @@ int main(int argc, char** argv) {
   OBS("rfind_c", rfind(ch, pos), t.rfind(ch, pos))
 #define FAM(f) OBS(#f "_S", f(S, pos), t.f(S, pos)) OBS(#f "_spn", f(buf, pos, count), t.f(buf, pos, count)) OBS(#f "_sp", f(cstr, pos), t.f(cstr, pos)) OBS(#f "_c", f(ch, pos), t.f(ch, pos))
   FAM(find_first_of) FAM(find_first_not_of) FAM(find_last_of) FAM(find_last_not_of)
+  // iterator-taking overloads: an iterator argument is given as index (npos = end())
+#define IT(i) ((i) == std::string::npos ? o->cend() : FS::const_iterator(o, (i)))
+#define SI(i) ((i) == std::string::npos ? t.end() : t.begin() + (i))
+  MUT("insert_it_c", insert(IT(i1), ch), t.insert(SI(i1), ch))
+  MUT("insert_it_nc", insert(IT(i1), count, ch), t.insert(SI(i1), std::min<size_t>(count, 2 * CV_L + 2), ch))
+  MUT("erase_it", erase(IT(i1)), t.erase(SI(i1)))
+  MUT("erase_it2", erase(IT(i1), IT(i2)), t.erase(SI(i1), SI(i2)))
+  MUT("replace_it2_s", replace(IT(i1), IT(i2), cstr), t.replace(SI(i1), SI(i2), cstr))
+  MUT("replace_it2_sn", replace(IT(i1), IT(i2), cstr, count2), t.replace(SI(i1), SI(i2), cstr, count2))
+  MUT("replace_it2_cc", replace(IT(i1), IT(i2), count2, ch), t.replace(SI(i1), SI(i2), std::min<size_t>(count2, 2 * CV_L + 2), ch))
+  else if (m == "replace_it2_ii") { FS* p = mk("other_len", "other_c"); std::string po = view(p); size_t j1 = Z("j1"), j2 = Z("j2");
+    FS::iterator f = (j1 == std::string::npos) ? p->end() : FS::iterator(p, j1), l = (j2 == std::string::npos) ? p->end() : FS::iterator(p, j2);
+    o->replace(IT(i1), IT(i2), f, l); if (content) { std::string t = old; t.replace(SI(i1), SI(i2), j1 == std::string::npos ? po.end() : po.begin() + j1, j2 == std::string::npos ? po.end() : po.begin() + j2); exp = cut(t); } delete p; }
+  else if (m == "append_it2") { FS* p = mk("other_len", "other_c"); std::string po = view(p);
+    FS::const_iterator f = (i1 == std::string::npos) ? p->cend() : FS::const_iterator(p, i1), l = (i2 == std::string::npos) ? p->cend() : FS::const_iterator(p, i2);
+    o->append(f, l); if (content) { std::string t = old; t.append(i1 == std::string::npos ? po.end() : po.begin() + i1, i2 == std::string::npos ? po.end() : po.begin() + i2); exp = cut(t); } delete p; }
   OBS("index", operator[](idx), t.c_str()[idx])
   OBS("front", front(), t.c_str()[0])
   OBS("back", back(), t.empty() ? 0 : t.back())
